@@ -30,6 +30,18 @@ CLAIMED = {
                 "`unsafe` from_raw_fd blocks are opaque; `#[cfg(windows)]` code is dropped; seeded changes to the unclaimed clauses of C16 will not be detected by this check.",
         "ref": "5-C16",
     },
+    "C20": {
+        "text": "Proof, for the SPLIT / ONE-PRINT-PER-REPLY / EXIT-STATUS SLICE of the property only: in varlink_call, without --activate/--bridge the argument is cut at its LAST '/', "
+                "the connection is made to the text before it and the method called is the text after it; an argument without '/' is called as a whole at the address the resolver "
+                "returned for the text before its LAST '.'; with --activate/--bridge the whole argument is the method. print_call_ret returns Err for every error reply and, when it returns "
+                "Ok, has printed (one println) the rendering of exactly the value it was given; varlink_call returns Ok only if every reply it obtained was Ok and was printed and, with "
+                "--more, the reply iterator was run to its end. NOT claimed: clap's argument parsing, main()'s mapping of Err to exit status 1, what is written to stderr for an error "
+                "reply (that closure is cut), colours, and the JSON text colored_json produces (render() is uninterpreted).",
+        "note": NOTE_COMMON + "Connection::with_*, MethodCall::{new,call,more}, the reply iterator, the resolver client, serde_json::from_str, ColoredFormatter and println! are stand-ins with assumed "
+                "contracts; `printed(text)` is an uninterpreted stable fact established only by the println! stand-in; str indices are treated as character positions; Box<dyn Error> "
+                "is replaced by a unit error type (T10); the `for` over the reply iterator is desugared to loop/next (R33); termination of --more is not claimed.",
+        "ref": "5-C20",
+    },
     "C15": {
         "text": "Proof of the sequential obligations under an assumed clock model: in listen()'s accept loop a timeout error is returned only when the ghost idle clock has "
                 "reached idle_timeout*1000 ms since the last accepted connection AND the pool counter just read is 0 (nothing queued or being served); with a stop flag the "
@@ -111,7 +123,6 @@ NOT_APPLICABLE = {
     "C13": "quantifies over thread schedules and timing of 2..64 OS connections; the installed Verus has no thread model and Kani has no threads (DESIGN.md section 7)",
     "C18": "relation between two process executions (stdio of `varlink bridge`, epoll close-watching, child processes); no contract can express process exit status",
     "C19": "the certification step slice (13 step methods with macro-expanded checks over generated types) was not built; nothing is claimed",
-    "C20": "stdout/stderr/exit status of the CLI through clap, println!, colored_json; the URL split cannot be isolated from connection side effects without rewriting it",
 }
 
 
